@@ -4,7 +4,7 @@ From NDN Require Import Base.Prelude Model.TlvVar Model.Tlv Model.PacketPtrs Spe
   Proofs.BytesLemmas Proofs.PtrsSpecView Proofs.PtrsSplit.
 From NDN Require Generated.Schemas.
 Local Open Scope N_scope.
-Set Default Timeout 60.
+Set Default Timeout 900.
 Arguments N.of_nat : simpl never.
 Arguments N.to_nat : simpl never.
 
